@@ -114,3 +114,8 @@ Fixpoint orun (bo : bool) (s : ostate) (acts : list oaction) : option ostate :=
    is called; Close runs to its end; the constructor returns *)
 Definition ctor_held_schedule (code : bool) : list oaction :=
   [PCall; PReg 0; OCall] ++ (if code then [ODelCtor 0] else []) ++ [OFinish; PBind 0].
+
+(* the schedule of the same class when the start completed before Close was called (the hold
+   could not be established): the instance is bound, Close deletes it *)
+Definition ctor_unheld_schedule : list oaction :=
+  [PCall; PReg 0; PBind 0; OCall; ODelBound 0; OFinish].
